@@ -64,16 +64,45 @@ def run(prop, rep, pdb):
             own.add(f)
     if prop in NEVER_INTO:
         return {"dependency_closure": {"imported_rule_instances": 0, "note": "not applicable to this property"}}
-    from .common import local_callees
+    from .common import local_callees, is_call_like, in_macro, callee_path, callee_generic
+    from .pdb import walk
+    # generic code calls the element type's operations through traits (`<T as Signed>::abs`, `Div::div`, `PartialEq::eq`,
+    # `Zero::zero` ..): those calls are not resolved to an impl, so every LOCAL impl of that trait method for an element type
+    # (Complex<..> and the primitive impls of src/traits.rs) is a possible callee
+    elem_impls = {}
+    for f in pdb.local_fns():
+        tr, st = f.get("impl_trait"), str(f.get("impl_self") or "")
+        if tr and (st.startswith("complex::Complex") or f.get("file") == "src/traits.rs"):
+            elem_impls.setdefault("%s::%s" % (tr, f.get("name")), []).append(f)
+
+    def trait_callees(fn):
+        out = []
+        for n in walk(fn["body"]):
+            if is_call_like(n) and not in_macro(n):
+                p_ = callee_path(n)
+                if p_ and pdb.fn(p_) is not None:
+                    continue
+                g = callee_generic(n) or p_
+                for cf in elem_impls.get(str(g), []):
+                    out.append(cf)
+        return out
     reach = {}          # functions reachable through at least one call edge from an own anchor
+    work = []
     for p in own:
         fn = pdb.fn(p)
         if fn is None:
             continue
-        for cf, _ in local_callees(pdb, fn):
-            if cf["path"] not in reach:
-                seen, _c = reachable_fns(pdb, cf)
-                reach.update(seen)
+        work.extend(cf for cf, _ in local_callees(pdb, fn))
+        work.extend(trait_callees(fn))
+    while work:
+        cf = work.pop()
+        if cf["path"] in reach:
+            continue
+        seen, _c = reachable_fns(pdb, cf)
+        for q_, f_ in seen.items():
+            if q_ not in reach:
+                reach[q_] = f_
+                work.extend(x for x in trait_callees(f_) if x["path"] not in reach)
     imported, by_prop = 0, {}
     have = {r.key for r in rep.results}
     for q in PROPS:
